@@ -10,7 +10,8 @@ import (
 // (simple and searched, with and without ELSE), WHILE/REPEAT/LOOP (labelled or not) with
 // LEAVE/ITERATE of any enclosing label, SIGNAL. Every loop is capped through the dedicated counter
 // v9 (never shadowed, only touched by the guards), so every run terminates under both the
-// structured semantics and the op machine.
+// structured semantics and the op machine. A third of the LOOPs have a single BEGIN…END block as
+// their body (DECLAREs, guard, statements), so that backward Gotos onto a ScopeBegin occur.
 
 const counterVar = 9
 const loopCap = 6
@@ -238,6 +239,21 @@ func (g *gen) stmt(c *gctx) *Stmt {
 			}
 			s.E = cond
 		}
+		if kind == "loop" && g.r.Chance(1, 3) {
+			// the whole LOOP body is one BEGIN…END block: DECLAREs, then the guard, then statements —
+			// the loop's back edge and every ITERATE of it are backward Gotos whose target op is a
+			// ScopeBegin (the guard stays the first thing executed on every round)
+			b := g.block(nc, -1)
+			nd := 0
+			for nd < len(b.Body) && b.Body[nd].Kind == "decl" {
+				nd++
+			}
+			body := append([]*Stmt{}, b.Body[:nd]...)
+			body = append(body, guard(l)...)
+			b.Body = append(body, b.Body[nd:]...)
+			s.Body = []*Stmt{b}
+			return s
+		}
 		s.Body = append(guard(l), g.stmts(nc, 1+g.r.Intn(3))...)
 		return s
 	case k < 94:
@@ -321,6 +337,9 @@ func features(s *Stmt) map[string]bool {
 			case "while", "repeat", "loop":
 				f["loop"] = true
 				f[s.Kind] = true
+				if len(s.Body) == 1 && s.Body[0].Kind == "block" {
+					f["loop-body-is-block"] = true
+				}
 			case "leave", "iterate":
 				f["jump"] = true
 				f[s.Kind] = true
@@ -394,16 +413,70 @@ func corpus() []*Case {
 			&Stmt{Kind: "while", Label: 0, E: bin("lt", vr(3), lit(8)), Body: []*Stmt{set(3, bin("add", vr(3), lit(1))),
 				ifs(bin("eq", vr(3), lit(6)), &Stmt{Kind: "iterate", Label: 0}), emit(bin("mul", vr(3), lit(10)))}},
 			set(0, vr(3)))})
+	// stale label, jump into a closed block (norun.go): the REPEAT l sits in a block that declares v4 and
+	// is closed when the WHILE l's ITERATE jumps back to its UNTIL test. Engine: the unresolved v4 evaluates
+	// to its cached value 10, CALL ok, trace 11,200,400 (model: err 1105). Second case: the block is under
+	// an IF that is not taken, the UNTIL test was never evaluated: err 1105, trace 100,200.
+	staleBlk := func() *Stmt {
+		return blk(-1, decl(4, 10), &Stmt{Kind: "repeat", Label: 0,
+			E:    bin("or", bin("le", lit(1), vr(3)), bin("lt", vr(4), lit(0))),
+			Body: []*Stmt{set(3, bin("add", vr(3), lit(1))), emit(bin("add", vr(4), vr(3)))}})
+	}
+	staleWhile := func() *Stmt {
+		return &Stmt{Kind: "while", Label: 0, E: bin("lt", vr(3), lit(4)), Body: []*Stmt{set(3, bin("add", vr(3), lit(1))),
+			ifs(bin("eq", vr(3), lit(3)), &Stmt{Kind: "iterate", Label: 0}), emit(bin("mul", vr(3), lit(100)))}}
+	}
+	cs = append(cs, &Case{Uvars: nul3, Calls: [][]Arg{{}}, Body: blk(-1, decl(3, 0), staleBlk(), staleWhile())})
+	cs = append(cs, &Case{Uvars: nul3, Calls: [][]Arg{{}}, Body: blk(-1, decl(3, 0), ifs(bin("eq", vr(3), lit(1)), staleBlk()), staleWhile())})
 	// OUT parameter: read before set with a non-NULL argument; and stale HasBeenSet across two CALLs
 	cs = append(cs, &Case{Params: out1, Uvars: []*int64{i64(5), nil, nil}, Calls: [][]Arg{{u(0)}},
 		Body: blk(-1, emit(vr(0)))})
 	cs = append(cs, &Case{Params: []Param{{0, "out"}, {1, "in"}}, Uvars: []*int64{i64(5), i64(1), nil}, Calls: [][]Arg{{u(0), u(1)}, {u(0), {Lit: i64(0)}}},
 		Body: blk(-1, ifs(bin("eq", vr(1), lit(1)), set(0, lit(7))))})
+	// ITERATE of a REPEAT label whose body ends with a BEGIN…END block (iterate_repeat_block_scope_leak):
+	// from inside that block (its scope stays: r = 2, structured 1), from in front of it (an empty
+	// scope stays and the enclosing block's ScopeEnd pops the wrong one: r = 3, structured 1), and the
+	// control with one more statement behind the block (r = 1).
+	rep := func(body ...*Stmt) *Stmt {
+		return &Stmt{Kind: "repeat", Label: 0, E: bin("le", lit(1), vr(4)), Body: body}
+	}
+	incK := func() *Stmt { return set(4, bin("add", vr(4), lit(1))) }
+	itK := func() *Stmt { return ifs(bin("eq", vr(4), lit(1)), &Stmt{Kind: "iterate", Label: 0}) }
+	cs = append(cs, &Case{Params: out1, Uvars: nul3, Calls: [][]Arg{{u(0)}},
+		Body: blk(-1, decl(3, 1), decl(4, 0), rep(incK(), blk(-1, decl(3, 2), itK())), set(0, vr(3)))})
+	cs = append(cs, &Case{Params: out1, Uvars: nul3, Calls: [][]Arg{{u(0)}},
+		Body: blk(-1, decl(3, 1), blk(-1, decl(3, 3), decl(4, 0), rep(incK(), itK(), blk(-1, set(4, vr(4))))), set(0, vr(3)))})
+	cs = append(cs, &Case{Params: out1, Uvars: nul3, Calls: [][]Arg{{u(0)}},
+		Body: blk(-1, decl(3, 1), decl(4, 0), rep(incK(), blk(-1, decl(3, 2), itK()), set(4, vr(4))), set(0, vr(3)))})
+	// the sweep case that exposed it (thorough, seed 1 of the old seeding, id 15734): ITERATE l2 out of
+	// two nested blocks, the outer one ending the REPEAT body; also DEFAULT-less DECLAREs and shadowing
+	cs = append(cs, &Case{Params: []Param{{0, "inout"}, {1, "in"}}, Uvars: []*int64{i64(7), nil, nil}, Calls: [][]Arg{{u(0), u(1)}, {u(0), u(1)}},
+		Body: blk(-1, decl(9, 0), &Stmt{Kind: "decl", X: 5}, set(1, lit(5)),
+			&Stmt{Kind: "repeat", Label: 2, E: bin("lt", vr(5), bin("add", lit(1), vr(9))), Body: []*Stmt{
+				set(9, bin("add", vr(9), lit(1))), ifs(bin("lt", lit(6), vr(9)), &Stmt{Kind: "leave", Label: 2}),
+				blk(-1, decl(3, 1), decl(5, 4),
+					blk(-1, decl(2, 1), &Stmt{Kind: "decl", X: 1},
+						ifs(bin("lt", bin("sub", vr(0), lit(4)), lit(3)), &Stmt{Kind: "iterate", Label: 2}),
+						emit(bin("add", vr(5), bin("sub", lit(1), vr(5)))),
+						ifs(&Expr{Op: "not", A: bin("sub", vr(1), lit(0))}, &Stmt{Kind: "iterate", Label: 2}),
+						emit(bin("add", bin("mul", vr(2), vr(5)), &Expr{Op: "null"}))),
+					emit(bin("add", bin("add", vr(1), vr(1)), bin("mul", vr(9), vr(3)))),
+					&Stmt{Kind: "loop", Label: 3, Body: []*Stmt{
+						set(9, bin("add", vr(9), lit(1))), ifs(bin("lt", lit(6), vr(9)), &Stmt{Kind: "leave", Label: 3}),
+						set(0, bin("sub", vr(0), lit(2))), set(3, lit(5))}})}})})
 	// regression: loops with LEAVE/ITERATE through nested blocks, CASE without ELSE, SIGNAL after a trace row
 	cs = append(cs, &Case{Params: out1, Uvars: nul3, Calls: [][]Arg{{u(0)}},
 		Body: blk(-1, decl(3, 0), &Stmt{Kind: "loop", Label: 0, Body: []*Stmt{set(3, bin("add", vr(3), lit(1))),
 			blk(-1, decl(4, 7), ifs(bin("lt", vr(3), lit(3)), &Stmt{Kind: "iterate", Label: 0}), &Stmt{Kind: "leave", Label: 0})}},
 			set(0, vr(3)))})
+	// regression: LOOP whose body *is* a block (the back edge and the ITERATE are backward Gotos whose
+	// target op is the block's ScopeBegin: the backward scan must include the target) with a shadowing
+	// DECLARE, ITERATE from inside the block, and the outer variable read after the loop (r = 1, trace 3)
+	cs = append(cs, &Case{Params: out1, Uvars: nul3, Calls: [][]Arg{{u(0)}},
+		Body: blk(-1, decl(3, 0), decl(4, 0), &Stmt{Kind: "loop", Label: 0, Body: []*Stmt{
+			blk(-1, decl(3, 100), set(4, bin("add", vr(4), lit(1))), ifs(bin("lt", vr(4), lit(3)), &Stmt{Kind: "iterate", Label: 0}),
+				&Stmt{Kind: "leave", Label: 0})}},
+			set(3, bin("add", vr(3), lit(1))), set(0, vr(3)), emit(vr(4)))})
 	cs = append(cs, &Case{Params: []Param{{0, "in"}, {1, "out"}}, Uvars: nul3, Calls: [][]Arg{{{Lit: i64(2)}, u(1)}, {{Lit: i64(3)}, u(1)}},
 		Body: blk(-1, &Stmt{Kind: "case", E: vr(0), Arms: []Arm{{C: lit(1), Body: []*Stmt{set(1, lit(10))}}, {C: lit(2), Body: []*Stmt{set(1, lit(20))}}}},
 			emit(vr(1)))})
